@@ -56,6 +56,7 @@ def main():
                     shutil.copy(os.path.join(src, f), dst)
             meta = {'property': prop, 'confirmed': {'suite_with_change': out['suite_with_change'], 'demo_exit_without_change': out['demo_without'],
                                                     'demo_exit_with_change': out['demo_with']},
+                    'applies_to': sh('git -C /repo log --format=%h -1').stdout.strip(),
                     'detected_by_check': out['check_exit'] == 1, 'violation_line': out['violation_line'],
                     'replay_kind': out.get('replay_kind'), 'replay_failure': out.get('replay_failure'),
                     'ran': ['git apply patch.diff in a scratch worktree of /repo HEAD', 'pytest (280 tests)', 'demo.py with and without the change',
